@@ -1101,7 +1101,7 @@ def expand_self_aliases(func):
             e = e.value
         return isinstance(e, ast.Name) and e.id == "self"
     alias = {}
-    for n in func.body:
+    for n in walk(func):
         if isinstance(n, ast.Assign) and len(n.targets) == 1 and isinstance(
                 n.targets[0], ast.Name) and stores.get(
                 n.targets[0].id) == 1 and isinstance(
@@ -1126,8 +1126,19 @@ def expand_self_aliases(func):
 
         def visit_Lambda(self, node):
             return node
-    new.body = [st for st in new.body if not (
-        isinstance(st, ast.Assign) and len(st.targets) == 1 and isinstance(
-            st.targets[0], ast.Name) and st.targets[0].id in vals)]
+    def drop(stmts):
+        out = []
+        for st in stmts:
+            if isinstance(st, ast.Assign) and len(
+                    st.targets) == 1 and isinstance(
+                    st.targets[0], ast.Name) and st.targets[0].id in vals:
+                continue
+            for fld, blk in _blocks(st):
+                blk[:] = drop(blk) or (
+                    [ast.copy_location(ast.Pass(), st)]
+                    if fld == "body" else [])
+            out.append(st)
+        return out
+    new.body = drop(new.body) or [ast.Pass()]
     T().visit(new)
     return _finish(new, func)
